@@ -44,9 +44,14 @@ fi
 rc=$?
 if [ $rc -ge 2 ]; then
   head -n 40 "$work/stderr.log" >&2; echo "..." >&2; tail -n 20 "$work/stderr.log" >&2
+  # A crash is attributed to go-mc only when, in the stack of the goroutine that crashed (the first one the runtime
+  # prints), the innermost frame that belongs to either the harness or go-mc is a go-mc frame. A harness bug
+  # (innermost such frame in main./verif/ or the injected shim) is exit 2, never a verdict.
+  crashblock=$(awk '/^(panic:|fatal error:)/{f=1} f&&/^goroutine [0-9]+ \[/{g++} g==1{print} g>1{exit}' "$work/stderr.log")
+  culprit=$(echo "$crashblock" | grep -m1 -E '^(main\.|verif/|github\.com/Tnze/go-mc/)')
   if ! grep -q -e 'HARNESS-ERROR' -e 'choice tape divergence' "$work/stderr.log" && \
      grep -q -e '^fatal error:' -e '^panic:' -e 'goroutine stack exceeds' "$work/stderr.log" && \
-     grep -q 'github.com/Tnze/go-mc/' "$work/stderr.log"; then
+     echo "$culprit" | grep -q '^github\.com/Tnze/go-mc/' && ! echo "$culprit" | grep -q '^github\.com/Tnze/go-mc/verifshim/'; then
     mkdir -p "replays/$id"
     cp "$work/stderr.log" "replays/$id/crash.log"
     echo "VIOLATION property=$id replay=$PWD/replays/$id/crash.log class=process-crash (unrecoverable runtime failure with go-mc frames on the stack)"
